@@ -48,6 +48,9 @@ def shapes(tier, seed):
     for n_o in ((2, 3) if tier == "quick" else (2, 3, 4)):
         for cart in (True, False):
             out.append({"kind": "direction", "n_o": n_o, "cartesian": cart})
+    for (n1, n2) in ((2, 1), (1, 2)):
+        for inc in (False, True):
+            out.append({"kind": "pipeline", "n_t": 3, "n1": n1, "n2": n2, "include_outliers": inc})
     out.append({"kind": "tools", "n_t": 2, "n_o": 1, "n_b": 1})
     out.append({"kind": "tools", "n_t": 2, "n_o": 1, "n_b": 2})
     if tier == "thorough":
@@ -105,6 +108,8 @@ class AG:
 def run_shape(shape):
     if shape["kind"] == "tools":
         return run_tools(shape)
+    if shape["kind"] == "pipeline":
+        return run_pipeline(shape)
     return {"radial": run_radial, "direction": run_direction, "compose": run_compose}[shape["kind"]](shape)
 
 
@@ -315,8 +320,13 @@ class FakeAnalysis:
     def run(self, start=None, stop=None, step=None, **k):
         out = []
         for i in range(len(self.traj) if stop is None else stop):
-            self.traj.frame = i
+            if hasattr(self.traj, "u"):
+                self.traj.u._cur = i          # memory-universe model: reading frame i
+            else:
+                self.traj.frame = i
             out.append(self.func(*self.args))
+        if hasattr(self.traj, "u"):
+            self.traj.u._cur = 0
         arr = np.empty(len(out), dtype=object)
         for i, v in enumerate(out):
             arr[i] = v if not isinstance(v, np.ndarray) else v.reshape(-1)[0]
@@ -455,6 +465,113 @@ def run_tools(shape):
             claims.append(("probe_assigned_to_the_shell_of_its_own_grid", z3.And(d >= lo - margin, d <= Rb[t] + margin)))
         acc.add(prover.prove_all(path.premises, claims), make_cex=lambda r_: {})
     return acc.result(eng.stats, prover.stats)
+
+
+PIPE_MASSES = [12.0, 1.0, 16.0]
+
+
+def _pipeline(T, universe, reference, radii, include_outliers, analysis=None):
+    """the radial assignment end to end on one AssignmentTool: the REAL __init__ (second-molecule selection, first molecule = everything
+    else, trajectory centred on the first molecule's centre of mass) and the REAL _get_t_assignments over the frames"""
+    o_ = np.array([[0.0, 0.0, 1.0]])
+    b_ = np.array([[0.0, 0.0, 0.0, 1.0]])
+    names = dict(from_full_array_to_o_b_t=lambda arr: (o_, b_, radii))
+    if analysis is not None:
+        names["AnalysisFromFunction"] = analysis
+    with bound(T, **names):
+        at = T.AssignmentTool(np.zeros((1, 7)), universe, reference, include_outliers=include_outliers)
+        return at._get_t_assignments()
+
+
+def run_pipeline(shape):
+    """Radial assignment through the tool's own preparation of the trajectory: molecule 1 (n1 atoms) and molecule 2 (n2 atoms, n1 != n2) sit at
+    SYMBOLIC heights on the z axis (masses fixed), molecule 2's centre of mass above molecule 1's.  The frame must be assigned to the shell
+    that contains the distance between the two centres of mass -- whatever the tool does to find, select and centre the molecules."""
+    import molgri.molecules.transitions as T
+    import molgri.space.utils as U
+    from symx.core import sym_float
+    from symx.models import FMemUniverse, FTopology
+    n_t, n1, n2, inc = shape["n_t"], shape["n1"], shape["n2"], shape["include_outliers"]
+    zs = [z3.Real(f"z{a}") for a in range(n1 + n2)]
+    r = [z3.Real(f"r{k}") for k in range(n_t)]
+    masses = PIPE_MASSES[:n1 + n2]
+    eng = Engine()
+    eng.decide_timeout_ms = 3000
+    prover = Prover(timeout_ms=20000, budget_s=300)
+    acc = Acc(shape)
+    com1 = z3.Sum([masses[a] * zs[a] for a in range(n1)]) / sum(masses[:n1])
+    com2 = z3.Sum([masses[a] * zs[a] for a in range(n1, n1 + n2)]) / sum(masses[n1:n1 + n2])
+    d = com2 - com1
+    eng.assume_global(r[0] > 0, *[r[k + 1] > r[k] for k in range(n_t - 1)], d > 0)
+    for x in r:
+        eng.declare_sign(x, "+")
+    proxy = NPProxy()
+
+    def body():
+        top = FTopology(masses, [f"X{a}" for a in range(n1 + n2)])
+        u = FMemUniverse(top, sarr([[[0.0, 0.0, SR(zv)] for zv in zs]]))
+        ref = FMemUniverse(FTopology(masses[n1:], [f"X{a}" for a in range(n1, n1 + n2)]), sarr([[[0.0, 0.0, float(a)] for a in range(n2)]]))
+        with bound(T, np=proxy, print=noprint, cdist=fcdist, pd=PdStub, trans=TransStub, float=sym_float), bound(U, np=proxy):
+            return _pipeline(T, u, ref, sarr([SR(x) for x in r]), inc, analysis=FakeAnalysis)
+
+    Rb, _, _, _, _ = position_spec(1, n_t, [z3.RealVal(1)], {}, {}, r, zero=z3.RealVal(0))
+    for path in eng.explore(body):
+        acc.begin(prover, path)
+        cexinfo = {"model": _path_model(path)}
+        if path.kind == "exc":
+            acc.structural("no_exception", False, detail=repr(path.value) + (path.tb or "")[-700:], cex=dict(cexinfo, kind="exception", exc=type(path.value).__name__))
+            continue
+        if acc.reachable is not True:
+            acc.reach(prover.satisfiable(path.premises))
+        res = np.asarray(path.value, dtype=object).reshape(-1)
+        acc.structural("one_index_per_frame", len(res) == 1, detail=len(res), cex=cexinfo)
+        if len(res) != 1:
+            continue
+        v = res[0]
+        if isinstance(v, float) and math.isnan(v):
+            claim = (d > Rb[-1]) if not inc else z3.BoolVal(False)
+            acc.add([prover.prove("outlier_iff_beyond_the_outer_boundary", path.premises, claim)], make_cex=lambda r_: {})
+            continue
+        t = int(v)
+        lo = Rb[t - 1] if t > 0 else z3.RealVal(0)
+        shell = z3.And(d >= lo, d <= Rb[t]) if (not inc or t < n_t - 1) else d >= lo
+        acc.add([prover.prove("shell_contains_the_distance_between_the_centres_of_mass", path.premises, shell)], make_cex=lambda r_: {})
+    return acc.result(eng.stats, prover.stats)
+
+
+def replay_pipeline(cex):
+    """the same end-to-end run on real MDAnalysis (real selection, real on-the-fly transformation, real AnalysisFromFunction)"""
+    import contextlib, io, warnings
+    import MDAnalysis as mda
+    from MDAnalysis.coordinates.memory import MemoryReader
+    import molgri.molecules.transitions as T
+    from symx.models import real_universe
+    s = cex["shape"]
+    model = cex.get("model", {}) or {}
+    n_t, n1, n2, inc = s["n_t"], s["n1"], s["n2"], s["include_outliers"]
+    masses = PIPE_MASSES[:n1 + n2]
+    zs = [fval(model, f"z{a}", 0.3 * a + (2.0 if a >= n1 else 0.0)) for a in range(n1 + n2)]
+    r = [fval(model, f"r{k}", 1.0 + 0.8 * k) for k in range(n_t)]
+    com1 = sum(m * z_ for m, z_ in zip(masses[:n1], zs[:n1])) / sum(masses[:n1])
+    com2 = sum(m * z_ for m, z_ in zip(masses[n1:], zs[n1:])) / sum(masses[n1:])
+    d = com2 - com1
+    if d <= 0 or r[0] <= 0 or any(b <= a for a, b in zip(r, r[1:])):
+        return {"reproduced": False, "detail": "model outside the stated assumptions"}
+    Rb = [(r[k] + r[k + 1]) / 2 for k in range(n_t - 1)] + [r[-1] + (r[-1] - r[-2]) / 2]
+    if min(abs(d - x) for x in Rb) < 1e-4 * max(1.0, d):
+        return {"reproduced": False, "detail": "model sits on a shell boundary (float32 coordinates cannot resolve it)"}
+    base = real_universe([[0.0, 0.0, z_] for z_ in zs], masses, [f"X{a}" for a in range(n1 + n2)])
+    u = mda.Universe(base._topology, np.array([[[0.0, 0.0, z_] for z_ in zs]], dtype=np.float32), format=MemoryReader)
+    ref = real_universe([[0.0, 0.0, float(a)] for a in range(n2)], masses[n1:], [f"X{a}" for a in range(n1, n1 + n2)])
+    try:
+        with warnings.catch_warnings(), contextlib.redirect_stdout(io.StringIO()):
+            warnings.simplefilter("ignore")
+            res = np.asarray(_pipeline(T, u, ref, np.array(r, dtype=float), inc), dtype=float).reshape(-1)
+    except Exception as e:  # noqa: BLE001
+        return {"reproduced": True, "detail": f"raised {e!r}"}
+    exp = float("nan") if (d > Rb[-1] and not inc) else float(min(int(np.searchsorted(Rb, d)), n_t - 1))
+    ok = len(res) == 1 and ((math.isnan(exp) and math.isnan(res[0])) or (not math.isnan(exp) and not math.isnan(res[0]) and int(res[0]) == int(exp)))
+    return {"reproduced": not ok, "detail": f"molecules at heights {zs} (centres of mass {com1:.4f}, {com2:.4f}; distance {d:.4f}), radii {r}: assigned {res.tolist()}, expected {exp}"}
 
 
 def _path_model(path):
@@ -616,6 +733,8 @@ def replay(cex):
     s = cex["shape"]
     if s["kind"] == "tools":
         return replay_tools(cex)
+    if s["kind"] == "pipeline":
+        return replay_pipeline(cex)
     model = cex.get("model", {}) or {}
     rng = np.random.default_rng(2)
     bad = []
